@@ -86,6 +86,7 @@ type FnCtx struct {
 	havocs    int
 	notes     []string
 	assumptions map[string]bool
+	maintainN   int
 	calleeUsed  map[string]bool
 	addrTaken   map[types.Object]bool
 	retCount    int
